@@ -110,10 +110,15 @@ def rule_R3(P, rep):
             argmap = {p["n"]: F.render(a) for p, a in zip(G.params, nd["a"])}
             cb = argmap.get("f_cb")
             why = []
-            if cb not in cls_cache:
-                cls_cache[cb] = classify_callback(P, cb) if P.fns(cb) else "unknown"
-            if cls_cache[cb] != family:
-                why.append("passes %s whose effect on the caller is '%s'" % (cb, cls_cache[cb]))
+            cbi = [a for p, a in zip(G.params, nd["a"]) if p["n"] == "f_cb"]
+            # the callback is a designator or a local that only ever holds designators: each candidate is classified
+            cands = sorted((F.func_values(cbi[0]) if cbi else None) or [cb])
+            cb = "|".join(cands)
+            for c in cands:
+                if c not in cls_cache:
+                    cls_cache[c] = classify_callback(P, c) if P.fns(c) else "unknown"
+                if cls_cache[c] != family:
+                    why.append("passes %s whose effect on the caller is '%s'" % (c, cls_cache[c]))
             if has_target:
                 if nd["fn"] not in SIB:
                     why.append("a directed switch must go to the sibling (target), not the parent")
